@@ -53,7 +53,7 @@ func pickSize(r *Rng, lim GenLimits) int {
 
 func genKeys(r *Rng, lim GenLimits) ([][]byte, string) {
 	n := pickSize(r, lim)
-	kind := r.Intn(9)
+	kind := r.Intn(11)
 	set := map[string]bool{}
 	name := ""
 	switch kind {
@@ -146,6 +146,37 @@ func genKeys(r *Rng, lim GenLimits) ([][]byte, string) {
 		step := r.Range(1, 5)
 		for i := start; i < len(ks) && len(set) < n; i += step {
 			set[ks[i]] = true
+		}
+	case 9: // long unique tails: short random head, then a tail of 33..300 bytes
+		// (leaf tails, stored leaf prefixes and tail comparisons beyond the
+		// usual small-buffer sizes 16/32/64/128/256)
+		name = "longtails"
+		head := r.Range(1, 4)
+		tailMax := r.PickI(40, 70, 140, 300)
+		for tries := 0; len(set) < n && tries < n*20+20; tries++ {
+			b := r.Bytes(head)
+			if r.Chance(0.5) {
+				for i := range b {
+					b[i] = "abcd"[int(b[i])%4]
+				}
+			}
+			tl := r.Range(33, tailMax)
+			t := make([]byte, tl)
+			x := r.U64()
+			for i := range t {
+				x = x*6364136223846793005 + 1442695040888963407
+				t[i] = "0123456789abcdefghijklmnopqrstuvwxyz"[(x>>58)%36]
+			}
+			set[string(append(b, t...))] = true
+		}
+	case 10: // long shared inner prefixes: groups of keys sharing 9..200 byte runs below a fan-out
+		name = "longprefix"
+		groups := 1 + n/8
+		for g := 0; g < groups && len(set) < n; g++ {
+			p := append(r.Bytes(r.Range(1, 2)), []byte(strings.Repeat(string(rune('a'+g%26)), r.PickI(9, 17, 33, 65, 129, 200)))...)
+			for j := 0; j < 8 && len(set) < n; j++ {
+				set[string(append(append([]byte{}, p...), r.Bytes(r.Range(1, 3))...))] = true
+			}
 		}
 	case 8: // binary caterpillar / nibble boundaries
 		name = "caterpillar"
